@@ -10,6 +10,8 @@ struct Mock
   MAKE_MOCK1(f, int(int));
   MAKE_MOCK1(g, void(int&));
   MAKE_CONST_MOCK1(h, int(int));
+  MAKE_MOCK3(t3, void(int, int, int));          // arities that are not a power of two exercise the library's
+  MAKE_MOCK5(t5, void(int, int, int, int, int)); // own C++11 make_index_sequence
 };
 
 int glob;
@@ -39,6 +41,8 @@ void drive()
     .TIMES(2)
     .RETURN(_1 + local));
   FORBID_CALL_V(m, f(7));
+  REQUIRE_CALL_V(m, t3(1, 2, 3));
+  REQUIRE_CALL_V(m, t5(1, 2, 3, 4, trompeloeil::gt(0)));
   m.f(1);
   m.g(i);
   m.h(1);
